@@ -114,6 +114,41 @@ theorem feasible_of_run (i : Inst) (hwf : WF i) {as : List Nat} {s : State}
   rw [depot_tour_eq, ← hl, ← hc]
   exact hr
 
+/-! ### the reset-time pre-computation inside the model -/
+
+/-- the budgets are at least `m` below `L − D j 0` -/
+def MarginGe (i : Inst) (m : Int) : Prop := ∀ j, 1 ≤ j → j ≤ i.n → i.budget j ≤ i.L - i.D j 0 - m
+
+/-- `_reset` computes `max_length − dist − 1e-6` (extracted constant) up to a rounding error `rho`: the
+budgets stay at least `1e-6 − rho` below `L − D j 0` … -/
+theorem marginGe_of_precomp (i : Inst) (U rho m : Int) (hp : Precomp i U rho)
+    (hm : 1000000 * m ≤ U - 1000000 * rho) : MarginGe i m := by
+  intro j h1 h2
+  have := (hp j h1 h2).2
+  simp only [budgetSpecScaled, Params.opResetMargin] at this
+  omega
+
+theorem precomp_iff (i : Inst) (U rho : Int) : precomp i U rho = true ↔ Precomp i U rho := by
+  simp only [precomp, List.all_eq_true, List.mem_range, Bool.and_eq_true, decide_eq_true_eq, Precomp]
+  constructor
+  · intro h j h1 h2
+    have := h (j - 1) (by omega)
+    rwa [Nat.sub_add_cancel h1] at this
+  · intro h k hk
+    exact h (k + 1) (by omega) (by omega)
+
+/-- well-formedness from the pre-computation: no hypothesis about the read-back budgets other than that
+they ARE the code's formula up to a rounding error smaller than the margin -/
+theorem wf_of_precomp (i : Inst) (U rho : Int) (hd : i.D 0 0 = 0) (hL : 0 ≤ i.L) (hp : Precomp i U rho)
+    (hrho : 1000000 * rho ≤ U) : WF i :=
+  ⟨hd, hL, fun j h1 h2 => by have := marginGe_of_precomp i U rho 0 hp (by omega) j h1 h2; omega⟩
+
+/-- **C01 (OP), with the pre-computation inside the model.** -/
+theorem feasible_of_run_precomp (i : Inst) (U rho : Int) (hd : i.D 0 0 = 0) (hL : 0 ≤ i.L)
+    (hp : Precomp i U rho) (hrho : 1000000 * rho ≤ U) {as : List Nat} {s : State}
+    (h : Run env i (env.reset i) as s) : Feasible i as :=
+  feasible_of_run i (wf_of_precomp i U rho hd hL hp hrho) h
+
 /-- Non-vacuity: a concrete well-formed instance (budgets with a margin of one unit) with a finished
 mask-confined run that uses the budget up to that margin. -/
 def exInst : Inst :=
